@@ -41,6 +41,7 @@ type Variant struct {
 	Links    []Link `json:"links,omitempty"`
 	Extra    bool   `json:"extra,omitempty"`
 	Gzip     bool   `json:"gzip,omitempty"`
+	GzSplit  []int  `json:"gz_split,omitempty"` // Gzip: the outer stream is written as len+1 gzip members cut at these offsets (mod length+1)
 	Multi    *Multi `json:"multi,omitempty"`
 }
 
@@ -100,7 +101,9 @@ func (v Variant) features(regNames []string) []string {
 	if v.Extra {
 		fs = append(fs, "extra")
 	}
-	if v.Gzip {
+	if v.Gzip && len(v.GzSplit) > 0 {
+		fs = append(fs, "gzip-multimember")
+	} else if v.Gzip {
 		fs = append(fs, "gzip")
 	}
 	if v.Multi != nil {
@@ -141,7 +144,11 @@ func (v Variant) restrict(f string, keep bool, regNames []string) Variant {
 	if sel("extra") {
 		out.Extra = v.Extra
 	}
-	if sel("gzip") {
+	if v.Gzip && len(v.GzSplit) > 0 {
+		if sel("gzip-multimember") {
+			out.Gzip, out.GzSplit = true, v.GzSplit
+		}
+	} else if sel("gzip") {
 		out.Gzip = v.Gzip
 	}
 	if v.Multi != nil && sel("multi-"+v.Multi.By) {
